@@ -712,6 +712,7 @@ func RunBackendShard(t *testing.T, env *ShardEnv) *ShardReport {
 	shardSeed := mixSeed(env.Seed, strSeed(env.Prop), uint64(env.Shard))
 	nt := map[uint64]bool{}
 	unknown := 0
+	runFileConcurrency(env, rep)
 	for i := 0; ; i++ {
 		if (env.MaxRuns > 0 && i >= env.MaxRuns) || time.Since(start) > env.Budget {
 			break
